@@ -530,7 +530,9 @@ func c06Embed(r *mon.Rng, root *refjson.Node, forEnum bool) []c06Insert {
 		points = append(points, n.End)
 	})
 	sort.Ints(points)
-	snippets := []string{" # c\n", "# {not: \"json\"} [1,\n", "\t#x\r\n", "   # \"quoted\" // not an annotation\n", " #\n"}
+	snippets := []string{" # c\n", "# {not: \"json\"} [1,\n", "\t#x\r\n", "   # \"quoted\" // not an annotation\n", " #\n",
+		// block comments closed on their line: the next token may be glued to the closing marker
+		"### c ###", " ###x###", "###\n two\n lines ###"}
 	if forEnum {
 		snippets = []string{" // c\n", "// \"x\", [1] {2}\n", "\t//x\r\n", " //   spaced out   \n"}
 	}
@@ -596,7 +598,7 @@ func c06Pretty(text []byte, root *refjson.Node) (pretty []byte, annot, comment [
 	return sb.Bytes(), annot, comment
 }
 
-var c06AnnotSnippets = []string{" // a note # a comment", " // note", " // {optional: false} - note # comment", " // {min: 1, type: \"integer\"}", " /* note */", " /* {or: [\"integer\", {type: \"string\"}]} - note */ # c",
+var c06AnnotSnippets = []string{" // {enum: [\"x\", \"\\u0079\"]}", " /* {\"\\u006din\": 0} - n\\u0041 */", " // {regex: \"\\u0061+\"} - \\u note"," // a note # a comment", " // note", " // {optional: false} - note # comment", " // {min: 1, type: \"integer\"}", " /* note */", " /* {or: [\"integer\", {type: \"string\"}]} - note */ # c",
 	" // {enum: [1, \"a\"]} -", " # c", " #"}
 
 // c06PrettyEmbedded: the pretty layout with annotations (rules and notes) and user comments at
